@@ -40,8 +40,21 @@ func init() {
 
 func (c18Engine) Plan(tier string) []Phase { return []Phase{{Mode: "random", Share: 1}} }
 
+// validProject for concurrent runs: corpus projects above 12 KB are left to the sequential
+// engines - under the race detector with a switch at every other site a single run over them
+// takes tens of seconds, which buys fewer schedules, not better ones.
 func validProject(r *Rand, corpusShare int) *Project {
-	return pickProject(r, corpusShare)
+	for try := 0; try < 6; try++ {
+		p := pickProject(r, corpusShare)
+		n := 0
+		for _, f := range p.Files {
+			n += len(f.Data)
+		}
+		if n <= 12<<10 {
+			return p
+		}
+	}
+	return genValid(r.Fork())
 }
 
 func (c18Engine) Gen(job *Job) *Case {
@@ -276,6 +289,12 @@ func (c18Engine) Exec(c *Case, job *Job) *Result {
 		}
 	}
 	rep := obs.report
+	if rep.Overflow {
+		// a table of the simulator was too small for this project: not a simulation, not a verdict
+		res.Verdict = "skip"
+		res.count("skipped:simulator-table-overflow", 1)
+		return res
+	}
 	res.Steps = int(rep.Yields)
 	res.count("yields", int(rep.Yields))
 	res.count("decisions", int(rep.Decisions))
